@@ -146,6 +146,7 @@ let parse_op (toks : string list) : op =
   | ["placement"] -> OPlacement
   | ["iter_nth"; k; v; p] -> OIterNth (parse_ik k, nat v, parse_pat_nth p)
   | ["lazy_down"; d; v; i] -> OLazyDown (nn d, nat v, nn i)
+  | ["cursor_max"; a; p] -> OCursorMax (parse_api a, parse_pat_ro p)
   | _ -> fail_parse "op" (String.concat " " toks)
 
 let parse_cfg (toks : string list) : cfg =
